@@ -7,9 +7,13 @@
     (a) `f_total`          no panic on ANY value — all nine kinds, the nil interface and typed nil slices
                            where the model takes a `GVal`, collections nested to any depth, zero-ring
                            polygons inside multi-polygons, zero-vertex rings inside polygons, one-vertex
-                           lines.  The only hypotheses are the ones the Go function documents (a box of
-                           positive size for clipping, a CW/CCW orientation for smart clipping, a
-                           simplifier that is itself total on lines of more than two points).
+                           lines.  The hypotheses are: a box of positive size for clipping and smart
+                           clipping (`BoxOK` — NOT a precondition the Go functions document: the exact-field
+                           termination argument of the line clipper needs it; point, flat and inverted
+                           boxes are outside these theorems and are only exercised on the real code, entries
+                           `clip.degbox` / `smartclip.degbox` of the C20 cross product), a CW/CCW orientation
+                           for smart clipping, a simplifier that is itself total on lines of more than two
+                           points.  Totality is proved in exact ordered fields, not in float64.
                            Models that are PLAIN TOTAL LEAN FUNCTIONS (no `Res`/`Option` outcome: every
                            Go path returns, there is no `panic` arm to exclude) have no such theorem; each
                            section says so.
@@ -24,6 +28,11 @@
                            GeoJSON: the members' encodings in order inside the collection's).
 
   `orb.Round` has no Lean model and is therefore NOT covered here (it stays with the dynamic check).
+  Many of the (b)/(c) statements below are proved by `rfl` / unfolding: they RESTATE the model's own
+  dispatch in the vocabulary of the property, so their content is the fidelity of the model, which is
+  established by the correspondence runs (C06–C18 for the packages, and the C20 cross product, whose
+  driver judges the implementation against exactly these statements: `relate`, `clipColl`, `smartColl`,
+  … in Driver/C20.lean), not by these proofs.
   Where the code makes a clause false the true behaviour is stated and the finding named
   (`planar_centroid_collection_lowerdim`: finding C10-collection-lowerdim-centroid).
 
